@@ -80,7 +80,7 @@ def cases_for_rule(ri, rn, ctx):
     for a in decl:
         listed = aspec[a][1:]
         v = listed[0] if listed else "v"
-        for nm in (a + " ", " " + a, a.upper() if a.upper() != a else a.lower(), a + "x", a[:-1]):
+        for nm in (a + " ", " " + a, a.upper() if a.upper() != a else a.lower(), a + "x", a[:-1], "xml:" + a, "xsi:" + a):
             if nm in aspec or nm == "":
                 continue
             yield [[nm, v]]
